@@ -175,7 +175,18 @@ func runSingle(in Sx) Sx {
 	for i := 0; i < nreads; i++ {
 		before := nDec(rec)
 		start := r.Pos
+		// the allocation is measured twice (on a copy of the reader first) and the smaller
+		// value reported, so that an unrelated allocation of the run-time cannot be charged
+		// to the decoder
+		alloc2 := -1
+		if !dangerous(fmtc, r.Data[r.Pos:]) {
+			cp := *r
+			alloc2 = decode(fmtc, &cp, NewCipher(cidx, keyseed), true).alloc
+		}
 		d := decode(fmtc, r, rec.AsCryptor(), true)
+		if alloc2 >= 0 && alloc2 < d.alloc {
+			d.alloc = alloc2
+		}
 		feedUnzip(fmtc, d, data[start:], rec, before, unzipT)
 		var res Sx
 		if fmtc == 3 {
